@@ -82,6 +82,7 @@ ASSUMPTIONS = [
 NUM = cal.NUM
 MAX = cal.MAX_SERIAL
 BLOCK = 1024
+TIE_BATCH = 40
 TIE_EVERY = 101          # prime: walks through every residue of the inner loops (6 bases, 16 offsets)
 PYNAME = {'YEAR': 'year', 'MONTH': 'month', 'DAY': 'day', 'DATE': 'date', 'WEEKDAY': 'weekday',
           'EOMONTH': 'eomonth', 'EDATE': 'edate', 'YEARFRAC': 'yearfrac', 'HOUR': 'hour',
@@ -179,10 +180,14 @@ def n_class(n):
 def check_day(ctx, ev, n):
     """all claims about the single serial n (parts, round trip, WEEKDAY window n..n+7)"""
     case = {'part': 'day', 'mode': ev.mode, 'n': n}
-    window = [n + j for j in range(8) if 0 <= n + j <= MAX] if 0 <= n <= MAX else [n]
+    # library level: WEEKDAY(n..n+7); workbook level: WEEKDAY(n), WEEKDAY(n+7) only (period, not distinctness)
+    offsets = range(8) if ev.mode == 'lib' else (0, 7)
+    window = [n + j for j in offsets if 0 <= n + j <= MAX] if 0 <= n <= MAX else [n]
     outs = ev.calls([('YEAR', (n,)), ('MONTH', (n,)), ('DAY', (n,)), ('ROUNDTRIP', (n,))] +
                     [('WEEKDAY', (x,)) for x in window])
     parts, rt, wds = outs[:3], outs[3], outs[4:]
+    w7 = wds[-1] if len(window) > 1 and window[-1] == n + 7 else ('v', None)
+    seen = observed(outs[:5] + [w7])           # the part of the observation both levels have
     bad = 0
     if not (0 <= n <= MAX):
         where = 'serial-past-9999' if n > MAX else 'negative-serial'
@@ -209,7 +214,7 @@ def check_day(ctx, ev, n):
         else:
             ctx.count('permissive:weekday-past-9999=' + ('#NUM!' if o[1] == NUM else 'weekday'))
         ctx.count('out_of_range_serials_checked')
-        return bad, observed(outs)
+        return bad, seen
 
     want = cal.parts(n)
     cls = n_class(n)
@@ -248,18 +253,17 @@ def check_day(ctx, ev, n):
             vals.append(None)
         else:
             vals.append(int(o[1]))
-    if len(window) == 8:
+    if window[-1] == n + 7:
         ctx.count('weekday_period_pairs')
     if None not in vals:
-        if len(vals) == 8:
-            if vals[7] != vals[0]:
-                bad += 1
-                ctx.violation('WEEKDAY/not-period-7', f'WEEKDAY({n}) = {vals[0]} but WEEKDAY({n + 7}) = {vals[7]}', case)
-        if len(vals) >= 7 and len(set(vals[:7])) != 7:
+        if window[-1] == n + 7 and vals[-1] != vals[0]:
+            bad += 1
+            ctx.violation('WEEKDAY/not-period-7', f'WEEKDAY({n}) = {vals[0]} but WEEKDAY({n + 7}) = {vals[-1]}', case)
+        if ev.mode == 'lib' and len(vals) >= 7 and len(set(vals[:7])) != 7:
             bad += 1
             ctx.violation('WEEKDAY/seven-consecutive-days-not-distinct',
                           f'WEEKDAY({n}..{n + 6}) = {vals[:7]}: a shorter period than 7', case)
-    return bad, observed(outs)
+    return bad, seen
 
 
 def count_day(ctx, n):
@@ -722,14 +726,44 @@ def sweep_hms(ctx, tie):
 
 # --------------------------------------------------------------------------- the 1 % tie to evaluate
 
+class _Recorded(Exception):
+    pass
+
+
+class _RecordEval:
+    """dry run of a check function: keeps the calls it wants to make (every check function makes all
+    its calls in one ev.calls() before it looks at anything)"""
+    mode = 'wb'
+    exprs = None
+
+    def calls(self, exprs):
+        self.exprs = list(exprs)
+        raise _Recorded
+
+
+class _ReplayEval:
+    mode = 'wb'
+
+    def __init__(self, outs):
+        self.outs = outs
+
+    def calls(self, exprs):
+        assert len(exprs) == len(self.outs)
+        return self.outs
+
+
 class Tie:
     """every 101st library-level case is judged a second time through ExcelCompiler (same oracle, same
-    mechanism keys, counters prefixed wb:) and its observation compared with the library-level one"""
+    mechanism keys, counters prefixed wb:) and its observation compared with the library-level one.
+    Cases whose library-level call returned values are evaluated TIE_BATCH at a time as independent rows
+    of one workbook; a case with an exception on either side gets a workbook of its own
+    (vp.lib.eval_formula for a single formula), so a failed evaluation cannot touch another case."""
 
     def __init__(self, ctx):
         self.ctx = ctx
         self.phase = h64(('c17-tie', ctx.seed)) % TIE_EVERY
         self.i = 0
+        self.queue = []
 
     def __call__(self, check, args, seen_lib=None):
         """call right after the library-level ``check(ctx, LIB, *args)``"""
@@ -744,7 +778,39 @@ class Tie:
     def force(self, check, args, seen_lib=None):
         if seen_lib is None:
             seen_lib = check(_Sink(self.ctx, quiet=True), LIB, *args)[1]
-        seen_wb = check(_Sink(self.ctx, prefix='wb:'), WB, *args)[1]
+        if ('x',) in seen_lib:
+            self.judge(check, args, seen_lib, WB)
+            self.ctx.count('tie:own-workbook')
+            return
+        self.queue.append((check, args, seen_lib))
+        if len(self.queue) >= TIE_BATCH:
+            self.flush()
+
+    def flush(self):
+        queue, self.queue = self.queue, []
+        if not queue:
+            return
+        exprs, spans = [], []
+        for check, args, _ in queue:
+            rec = _RecordEval()
+            try:
+                check(_Sink(self.ctx, quiet=True), rec, *args)
+            except _Recorded:
+                pass
+            spans.append((len(exprs), len(rec.exprs)))
+            exprs += rec.exprs
+        outs = WB.calls(exprs)
+        self.ctx.count('tie:workbooks')
+        for (check, args, seen_lib), (a, n) in zip(queue, spans):
+            mine = outs[a:a + n]
+            if any(o[0] == 'x' for o in mine):
+                self.judge(check, args, seen_lib, WB)          # again, alone
+                self.ctx.count('tie:own-workbook')
+            else:
+                self.judge(check, args, seen_lib, _ReplayEval(mine))
+
+    def judge(self, check, args, seen_lib, ev):
+        seen_wb = check(_Sink(self.ctx, prefix='wb:'), ev, *args)[1]
         self.ctx.case(None, nontrivial=False)
         self.ctx.count('tie_cases')
         self.ctx.count('tie:' + check.__name__)
@@ -763,6 +829,7 @@ def run(ctx):
     sweep_hms(ctx, tie)
     sweep_yearfrac(ctx, tie)
     sweep_days(ctx, tie)
+    tie.flush()
     if ctx.shard:
         return
     ctx.sample({'part': 'day', 'n': 60, 'YEAR/MONTH/DAY': [lib.call(f, 60) for f in ('year', 'month', 'day')],
